@@ -417,12 +417,16 @@ def _build_cp_atom_payload(sequence, restrict, payload_form=False, interner=None
     # and that everything is specific.
 
     lget = locked.get
+    # flags an earlier specific already changed; the global value no longer
+    # tells what they are for the packages that specific matched.
+    touched = set()
 
     for key, neg, pos in reversed(l):
         # only grab the deltas; if a + becomes a specific -
-        neg = tuple(x for x in neg if lget(x, True))
-        pos = tuple(x for x in pos if not lget(x, False))
+        neg = tuple(x for x in neg if x in touched or lget(x, True))
+        pos = tuple(x for x in pos if x in touched or not lget(x, False))
         if neg or pos:
+            touched.update(neg, pos)
             new_l.append(f(key, neg, pos))
 
     return tuple(new_l)
